@@ -754,6 +754,10 @@ func (fr *Frame) atCallAsserts(key string, cc *ssa.CallCommon, st *State, pos to
 			t.T = a.Type()
 			ctx.env[fmt.Sprintf("$arg%d", i)] = t
 		}
+		if at.Ghost != nil {
+			fr.applyGhosts([]*GhostAssign{at.Ghost}, ctx, st)
+			continue
+		}
 		g, err := ctx.evalBool(at.Clause.E)
 		if err != nil {
 			vc.unsupportedf("at call %s: %v", at.Callee, err)
